@@ -194,7 +194,7 @@ func (h *Hub) Run() {
 				delete(h.connections, conn)
 				h.connMu.Unlock()
 
-				close(conn.send)
+				conn.markClosed()
 				h.roomManager.RemoveConnectionFromAllRooms(conn)
 				h.metrics.DecrementConnections()
 				h.metrics.UnregisterConnection(conn.ID)
@@ -244,7 +244,7 @@ func (h *Hub) Run() {
 				select {
 				case conn.send <- message:
 				default:
-					close(conn.send)
+					conn.markClosed()
 					delete(h.connections, conn)
 					h.roomManager.RemoveConnectionFromAllRooms(conn)
 				}
